@@ -100,7 +100,9 @@ CHECKS = {
                 "two_col_zone.rearrange as functions of the zone's coordinates and the call's index lists, compared with the implementation - verdict and "
                 "paths - on every enumerated call): the CZ move accepts exactly the documented calls, and EVERY call it accepts (any zone with ascending "
                 "coordinates, any index lists, shifts and occupancy) is executable and returns every atom; every accepted rearrange call whose parking "
-                "coordinates are pairwise different and whose destination is vacant delivers zone[src] to zone[dst]; 'every accepted rearrange call is "
+                "coordinates are pairwise different and whose destination is vacant delivers zone[src] to zone[dst]; on a zone where parking is "
+                "possible (parking_ok, evaluated in Coq for every enumerated layout) EVERY rearrange call meeting the documented preconditions is accepted, "
+                "strict and delivers (C08_rearrange_documented_call_delivers); 'every accepted rearrange call is "
                 "executable' is REFUTED in Coq with a witness (pair pitch 6: known finding). "
                 "PROVED for moves played in several legs (move_by_waypoints with pick on the first call and drop on the last): consecutive paths glued at "
                 "the waypoint they share simulate EXACTLY like the sequence of legs, from every state (merge_legs_sound), so the transport theorem "
